@@ -64,7 +64,7 @@ class Knobs:
         # an overriding constructor registered in two sibling blueprints (one module imported by both, or two plain registrations)
         self.p_sibling_regs = 0.5
         # constructible types that are not nominal: `(T3, u8)` tuples and `[T3; 1]` arrays around the instrumented struct
-        self.p_shapes = 0.0  # raised once the repair of the request-scoped tuple panic is in the repo
+        self.p_shapes = 0.45
         self.__dict__.update(kw)
         if self.flavour == "observers":
             self.n_obs = (3, 6)
@@ -742,7 +742,7 @@ def crateize(rng, spec):
     moved = set()
     ctors = []
     for cid, c in spec["ctors"].items():
-        if c.get("generic_param") or c.get("module") or c.get("input") or c["out"] not in plain:
+        if c.get("generic_param") or c.get("module") or c.get("module_import") or c.get("input") or c["out"] not in plain:
             continue
         # constructors come in dependency order: all inputs of a moved constructor must have moved before it
         if all(t in moved for (t, _m) in c["ins"]) and rng.random() < 0.65:
@@ -818,7 +818,7 @@ def methodize(rng, spec, p=0.5):
         return bool(ins) and plain(ins[0][0]) and (in_dep or ins[0][0] not in dep["types"])
 
     for cid, c in spec["ctors"].items():
-        if c.get("generic_param") or c.get("module") or c.get("input") or not plain(c["out"]) or rng.random() >= p:
+        if c.get("generic_param") or c.get("module") or c.get("module_import") or c.get("input") or not plain(c["out"]) or rng.random() >= p:
             continue
         in_dep = cid in dep["ctors"]
         if not in_dep and c["out"] in dep["types"]:
@@ -895,7 +895,7 @@ def modularize(rng, spec):
     """Put some constructors into modules under a shared function name (`m3::connect`, `m7::connect`): every name the
     compiler derives from the function name (state fields, error variants, ...) then needs disambiguation."""
     names = ["connect", "build", "new"]
-    cids = [cid for cid, c in spec["ctors"].items() if not c.get("generic_param") and not c.get("input")]
+    cids = [cid for cid, c in spec["ctors"].items() if not c.get("generic_param") and not c.get("input") and not c.get("module_import")]
     rng.shuffle(cids)
     # fallible singletons first: their errors become variants of the application state error
     cids.sort(key=lambda cid: 0 if (spec["ctors"][cid]["lc"] == "singleton" and spec["ctors"][cid].get("fallible")) else 1)
